@@ -85,6 +85,13 @@ Theorem C17_stop_no_supervisor : forall c es s,
 Proof. exact no_supervisor_when_stopped. Qed.
 Print Assumptions C17_stop_no_supervisor.
 
+(* futures survive reconnects: whenever a supervisor (hence possibly a client with its cleanup) exists, the shared
+   store is protected, and by C17_futures no supervisor or connection event other than the listed ones resolves a future *)
+Theorem C17_store_protected : forall c es s,
+  run step (init c) es = Some s -> sp s <> SIdle -> protected s = true.
+Proof. exact store_protected. Qed.
+Print Assumptions C17_store_protected.
+
 (* why Stop(true) reaches every pending future: it is held by a blocked caller, the queue, the dispatcher, or the store *)
 Theorem C17_pending_held : forall c es s n,
   run step (init c) es = Some s -> fut_get n (futs s) = Some FPending -> In n (holders s).
